@@ -62,6 +62,10 @@ class BaseInterval(ABC):
         values = np.subtract(values, vmin)
         if np.issubdtype(values.dtype, np.integer):
             values = values.astype(np.float64)
+        if values.dtype == np.float16:
+            # half precision overflows inside the stretches (a logarithmic index above 65504,
+            # a small asinh range) and finite data would come back masked
+            values = values.astype(np.float32)
         # divide by interval
         if (vmax - vmin) != 0.0:
             np.true_divide(values, vmax - vmin, out=values)
